@@ -413,7 +413,7 @@ class Executor:
             if pr[0] == "deref":
                 if not isinstance(v, Ref):
                     raise Unsupported(f"deref of {v!r}")
-                v = self._project(v.cell.v, [("field", i) if isinstance(i, int) else i for i in v.path], st, frame)
+                v = self._get_path(v.cell.v, list(v.path))
             elif pr[0] == "field":
                 if isinstance(v, Overflowed):
                     if pr[1] == 0:
@@ -488,7 +488,12 @@ class Executor:
 
     def _get_path(self, v, path):
         for i in path:
-            v = v.fields[i]
+            if isinstance(i, tuple):  # ("v", variant index): the payload of that variant
+                if not isinstance(v, Enum) or i[1] not in v.pay:
+                    raise Unsupported(f"payload of variant {i[1]} of {v!r}")
+                v = Agg(v.pay[i[1]])
+            else:
+                v = v.fields[i]
         return v
 
     def _set_path(self, v, path, val):
@@ -723,6 +728,12 @@ class Executor:
                 if not (isinstance(i, T) and i.is_const):
                     raise Unsupported("symbolic index ref")
                 path.append(i.val)
+            elif pr[0] == "downcast":
+                # reference into the payload of an enum variant (read-only use)
+                e = self._get_path(cell.v, path)
+                if not isinstance(e, Enum):
+                    raise Unsupported("downcast ref of " + repr(e))
+                path.append(("v", self.variant_index(e, pr[1])))
             else:
                 raise Unsupported("ref projection " + str(pr))
         return Ref(cell, path)
